@@ -6,6 +6,7 @@ from __future__ import annotations
 from .rules import (  # noqa: F401
     calls,
     export,
+    extra,
     fmt,
     lock,
     misc,
